@@ -9,7 +9,7 @@ S == INSTANCE ElementTree WITH MaxRep <- MaxRepQ, Strict <- TRUE
 T == INSTANCE ElementTree WITH MaxRep <- MaxRepQ, Strict <- FALSE
 Vals == {<<49>>}
 VARIABLE st
-Ops == [op : {"SetName"}, p : Parents, n : Names, v : Vals]
+Ops == [op : {"SetName", "SetDeep"}, p : Parents, n : Names, v : Vals]
        \cup [op : {"SetIdx"}, p : Parents, n : Names, i : 0..MaxKids, v : Vals]
        \cup [op : {"SetObj"}, p : Parents, n : Names, c : Obj]
        \cup [op : {"SetAt"}, p : Parents, i : 1..MaxKids, v : Vals]
